@@ -40,8 +40,22 @@ func vK15e() {
 	scopes[1].Parent = scopes[0]
 	scopes[1].Children = []*js_ast.Scope{scopes[2]}
 	scopes[2].Parent = scopes[1]
+	nScopes := 3
+	if vParam("TREE", 0) != 0 {
+		// two sibling block scopes inside the function body; a symbol of the
+		// function body may additionally be listed as a generated symbol of
+		// the first block (what hoistSymbols does for a function declared in
+		// a block in sloppy mode: `var f` is hoisted to the function scope)
+		for k := 3; k < 5; k++ {
+			sc := &js_ast.Scope{Kind: js_ast.ScopeBlock, Members: map[string]js_ast.ScopeMember{}, Parent: scopes[2]}
+			sc.Label.Ref = ast.InvalidRef
+			scopes = append(scopes, sc)
+			scopes[2].Children = append(scopes[2].Children, sc)
+		}
+		nScopes = 5
+	}
 	for i := range syms {
-		syms[i] = hSym{name: origNames[vChoose(len(origNames))], scope: vChoose(3), pinned: vBool()}
+		syms[i] = hSym{name: origNames[vChoose(len(origNames))], scope: vChoose(nScopes), pinned: vBool()}
 		for j := 0; j < i; j++ {
 			// one declaration per name and scope
 			vAssume(!(syms[j].scope == syms[i].scope && syms[j].name == syms[i].name))
@@ -51,6 +65,9 @@ func vK15e() {
 			symbols[i].Flags |= ast.MustNotBeRenamed
 		}
 		scopes[syms[i].scope].Members[syms[i].name] = js_ast.ScopeMember{Ref: ast.Ref{SourceIndex: 0, InnerIndex: uint32(i)}}
+		if nScopes == 5 && syms[i].scope == 2 && vBool() {
+			scopes[3].Generated = append(scopes[3].Generated, ast.Ref{SourceIndex: 0, InnerIndex: uint32(i)})
+		}
 	}
 	// pinning by `with`/eval happens inside functions; a pinned module-level
 	// symbol is reserved by the existing code path as well
@@ -82,6 +99,9 @@ func vK15e() {
 			// collide (same scope) or capture references (nested scopes)
 			if syms[i].name == syms[j].name && syms[i].pinned && syms[j].pinned {
 				continue // shadowing that already exists in the input
+			}
+			if si, sj := syms[i].scope, syms[j].scope; si >= 3 && sj >= 3 && si != sj {
+				continue // sibling blocks: neither declaration is visible in the other's scope
 			}
 			vAssert(names[i] != names[j], "two declarations visible in one scope chain never end up with the same name")
 		}
